@@ -221,9 +221,10 @@ def clause(ctx: core.Ctx, groups: list[str], *, nthreads: int | None = None, rou
                     check_frame=check_frame)
         for name, _ in tasks:
             ctx.case(f"threads/{g}/{name}")
-        if st["raises_alone"]:
-            raise tlc.MachineryError(f"re-entrancy task list {g} contains calls that raise on their own: {st['raises_alone'][:3]}")
-        stats.append({k2: v for k2, v in st.items() if k2 != "raises_alone"})
+        # a call that raises when it runs alone is not this clause's business (every task succeeds on the pinned tree; under a
+        # changed tree the property's own clauses judge it): it is compared like any other outcome and counted here
+        st["raises_alone"] = len(st["raises_alone"])
+        stats.append(st)
     ctx.extra.setdefault("reentrancy", []).extend(stats)
     ctx.assumptions.append("re-entrancy clause: values returned under 4 (thorough: 8) concurrent threads with a 10 us switch interval are compared bit for bit with "
                            "the same call run alone; the interleavings are whatever the interpreter scheduled (overlap counts in coverage.reentrancy), not an "
